@@ -645,6 +645,9 @@ func (u *Unit) evalExprExpect(e ast.Expr, want types.Type, st *State) Val {
 func (u *Unit) mapKeys(mt *types.Map) (string, string, string, string) {
 	ks := u.reg.sortOf(mt.Key())
 	vs := u.reg.sortOf(mt.Elem())
+	if vs == "Int" && u.isRefType(mt.Elem()) {
+		u.refMapValue["MV:"+ks+"|"+vs] = true
+	}
 	return ks, vs, "MD:" + ks, "MV:" + ks + "|" + vs
 }
 
